@@ -348,6 +348,10 @@ def _candidate_values(env_inputs, ctx, model, rng, n_random=24):
                     d[nm] = ang + 2 * math.pi * D * m
                     newv.append(d)
             variants = newv[:200]
+        if len(variants) > 1 and all(v is not None for v in base.values()):
+            # the model's own VALUE of every input (it satisfies the linear path constraints, which matters when
+            # an angle's value is constrained by thresholds / quotient windows): tried first
+            variants.insert(0, dict(base))
         for var in variants:
             for nm in names:
                 if var[nm] is None:
@@ -495,7 +499,13 @@ def run_shape(shape, tier="quick", seed=0):
             rec["samples"].append(dict(shape=shape.name, path_condition=pdesc, assertion=o["label"],
                                        kind=o["kind"], n_obligations_on_path=len(obls)))
         if hard_false:
-            cands = _numeric_filter(_candidate_values(env.inputs, ctx, None, rng, 12), ctx, pcs, [True])
+            # a structural assertion failed on this path: inputs that DRIVE the real code down this path come from a
+            # model of the path condition (random inputs rarely hit threshold / quotient windows)
+            pmodel = None
+            if pcs and env.inputs:
+                pv, pmodel, _, _, _ = smt.solve(pcs, timeout_ms=min(timeout_ms, 10000))
+                pmodel = pmodel if pv == "sat" else None
+            cands = _numeric_filter(_candidate_values(env.inputs, ctx, pmodel, rng, 12), ctx, pcs, [True])
             pending.append(dict(cands=cands, label=hard_false[0]["label"] + ": " + str(hard_false[0].get("detail", "")),
                                 pcs=pdesc, quiet=False))
             rec["discharged"] += len(obls) - len(hard_false)
@@ -574,11 +584,13 @@ def _fmt_pc(pcs):
 def _replay(shape, rec, cands, label, pcs_desc, quiet=False):
     """replay candidate inputs on the real code; record a violation if one reproduces"""
     tried = 0
-    for d in cands[:8]:
-        tried += 1
+    for d in cands[:40]:
+        if tried >= 8:
+            break
         env, err = concrete_run(shape, d)
-        if err == "infeasible":
+        if err == "infeasible":       # candidate outside the harness preconditions: does not count as a replay
             continue
+        tried += 1
         if err:
             rec["violations"].append(dict(shape=shape.name, label=label, inputs=env.values,
                                           detail="real code raised: " + err.split("\n")[0], path_condition=pcs_desc))
